@@ -230,9 +230,40 @@ def navigate(x, path):
     return x
 
 
-def apply_op(m, op):
+ASSIGN_INPLACE = {'attr': True, 'item': True, 'replace_values': True, 'view': True, 'astype': True, 'values': True,
+                  'list': False, 'tolist-item': False}
+
+
+def assign_from(dst, src_obj, x, fx, via):
+    """Whole-variable assignment of dst's variable x from the OTHER object's variable fx, in every spelling."""
+    src = src_obj.__dict__['_' + fx]      # the other side's array object itself
+    if via == 'attr':
+        setattr(dst, x, src)
+    elif via == 'item':
+        dst[x] = src
+    elif via == 'replace_values':
+        dst.replace_values(**{x: src})
+    elif via == 'view':
+        setattr(dst, x, src[:])
+    elif via == 'astype':
+        setattr(dst, x, src.astype('float32') if src.dtype.kind == 'f' else src.astype(src.dtype))
+    elif via == 'list':
+        setattr(dst, x, list(src))
+    elif via == 'tolist-item':
+        dst[x] = src.tolist()
+    elif via == 'scalar':
+        setattr(dst, x, src[0])
+    else:
+        raise ValueError(via)
+
+
+def apply_op(m, op, world=None):
     o = op['o']
-    if o == 'setCell':
+    if o == 'assignFrom':
+        assign_from(m, world.roots[op['from']], op['x'], op['fx'], op['via'])
+    elif o == 'assignValues':
+        m.values = world.roots[op['from']].values
+    elif o == 'setCell':
         m.__dict__['_' + op['x']][op['i']] = op['v']
     elif o == 'rebind':
         setattr(m, op['x'], [float(i) for i in range(op['n'])])
@@ -262,7 +293,7 @@ def apply_op(m, op):
         else:
             m.trace_t(op['t'], op['label'], trace=True)
     elif o == 'inSub':
-        apply_op(m.submodels[op['key']], op['op'])
+        apply_op(m.submodels[op['key']], op['op'], world)
     else:
         raise ValueError(o)
 
@@ -302,7 +333,7 @@ class RealWorld:
         elif c == 'copy':
             self.roots[cmd['r']] = COPY_ROUTES[cmd.get('route', 'method')](self.roots[cmd['of']])
         elif c == 'op':
-            apply_op(self.classes[cmd['r']] if cmd['r'] in self.classes else self.roots[cmd['r']], cmd['op'])
+            apply_op(self.classes[cmd['r']] if cmd['r'] in self.classes else self.roots[cmd['r']], cmd['op'], self)
         elif c == 'sub':
             self.roots[cmd['r']] = self.roots[cmd['of']].submodels[cmd['key']]
         elif c == 'snap':
@@ -320,7 +351,12 @@ class RealWorld:
 
 
 def line(prog):
-    return 'heap_prog\t' + json.dumps({'prog': prog}, separators=(',', ':'))
+    """Request line for the model.  A command carrying `expand` (one real call that the model sees as several
+    operations, e.g. `m.values = other.values`) is replaced by its expansion."""
+    out = []
+    for cmd in prog:
+        out.extend(cmd['expand'] if 'expand' in cmd else [cmd])
+    return 'heap_prog\t' + json.dumps({'prog': out}, separators=(',', ':'))
 
 
 # ---- full observable state (oracle) -----------------------------------------------------------------------------------
